@@ -14,19 +14,13 @@ def _sem_path():
 
 
 def mfront_generate(c, files, outdir, extra=()):
-    """run mfront --interface=generic on `files` (absolute paths) in outdir.  mfront increments the system-wide named
-    semaphore /dev/shm/sem.mfront-<uid> (defect F13, property C46): the run is isolated in a private mount namespace
-    with its own /dev/shm when possible; otherwise the semaphore file is recorded and restored."""
+    """run mfront --interface=generic on `files` (absolute paths) in outdir (vlib isolates the run: private /dev/shm)."""
     c.repo_build(["mfront"])
     exe = os.path.join(vlib.REPO_BUILD, "mfront", "src", "mfront")
     os.makedirs(outdir, exist_ok=True)
     cmd = [exe, "--interface=generic"] + list(extra) + list(files)
-    import shlex
-    inner = "mount -t tmpfs tmpfs /dev/shm && exec " + " ".join(shlex.quote(x) for x in cmd)
-    rc, out, err = c.run(["unshare", "-m", "sh", "-c", inner], cwd=outdir, timeout=300)
-    if rc != 0 and ("unshare" in err or "mount" in err or "Operation not permitted" in err):
-        # no private namespace available: plain run (vlib.run); the shared semaphore file is never rewritten
-        rc, out, err = c.run(cmd, cwd=outdir, timeout=300)
+    # c.run gives every `mfront` command a private /dev/shm itself (tools/vlib.py)
+    rc, out, err = c.run(cmd, cwd=outdir, timeout=300)
     if rc != 0:
         raise vlib.BuildError("mfront failed on %s:\n%s" % (files, (out + err)[-3000:]))
     return outdir
@@ -119,10 +113,32 @@ PROGRAMS = {
     "el": (["C41Elasticity"], "trace_el.cxx", "GenEl.v"),
     "norton": (["C41ImplicitNorton"], "trace_norton.cxx", "GenNorton.v"),
     "iso": (["C41Plasticity", "C41NortonCreep"], "trace_iso.cxx", "GenIso.v"),
+    "ortho": (["C41OrthoElasticity"], "trace_ortho.cxx", "GenOrtho.v"),
+    # the variants C41NortonRK_<algorithm> are written by rk_variants() (same source, other @Algorithm)
+    "rk": (["C41NortonRK"] + ["C41NortonRK_" + a for a in ("euler", "rk2", "rk4", "rk42", "rkCastem")], "trace_rk.cxx", "GenRK.v"),
 }
+RK_ALGORITHMS = ("euler", "rk2", "rk4", "rk42", "rk54", "rkCastem")
 
 
-def trace_programs(c, keys, hyps, ncases, srcdir=HERE, programs=None):
+def rk_variants(c, srcdir=HERE):
+    """C41NortonRK.mfront declares @Algorithm rk54; the other Runge-Kutta algorithms are obtained by rewriting two lines"""
+    d = os.path.join(c.work, "mfront_variants")
+    os.makedirs(d, exist_ok=True)
+    src = open(os.path.join(srcdir, "mfront", "C41NortonRK.mfront")).read()
+    out = {}
+    for a in RK_ALGORITHMS:
+        if a == "rk54":
+            continue
+        t = src.replace("@Behaviour C41NortonRK;", "@Behaviour C41NortonRK_%s;" % a).replace("@Algorithm rk54;", "@Algorithm %s;" % a)
+        if t == src or "@Algorithm %s;" % a not in t:
+            raise vlib.BuildError("cannot derive the %s variant of C41NortonRK.mfront" % a)
+        p = os.path.join(d, "C41NortonRK_%s.mfront" % a)
+        open(p, "w").write(t)
+        out["C41NortonRK_" + a] = p
+    return out
+
+
+def trace_programs(c, keys, hyps, ncases, srcdir=HERE, programs=None, variants=None):
     """mfront -> C++ -> tracer (Sym + double) for the given program keys.  Returns {key: (gen_v_path, stdout_lines)};
     reports tracer failures itself.  hyps: {key: 'h3d,hag'}."""
     from concurrent.futures import ThreadPoolExecutor
@@ -130,7 +146,7 @@ def trace_programs(c, keys, hyps, ncases, srcdir=HERE, programs=None):
     gdir = os.path.join(c.work, "gen")
     files = []
     for k in keys:
-        files += [os.path.join(srcdir, "mfront", n + ".mfront") for n in programs[k][0]]
+        files += [(variants or {}).get(n, os.path.join(srcdir, "mfront", n + ".mfront")) for n in programs[k][0]]
     mfront_generate(c, files, gdir)
     mutated = []
     for k in keys:
@@ -144,14 +160,14 @@ def trace_programs(c, keys, hyps, ncases, srcdir=HERE, programs=None):
     def one(k):
         names, src, genv = programs[k]
         gens = [os.path.join(gdir, "src", n + ".cxx") for n in names]
-        exe = c.cxx("trace_" + k, [os.path.join(srcdir, src)] + gens, SUPPORT + ["src/Math/MathException.cxx"],
+        exe = c.cxx("trace_" + k, [os.path.join(srcdir, src)] + gens, SUPPORT + ["src/Math/MathException.cxx", "src/Material/MaterialException.cxx"],
                     flags=include_flags(gdir))
         out_v = os.path.join(c.work, "coq", genv)
         rc, out, err = c.run([exe, "gen", out_v, str(c.seed % 1000003), str(ncases), hyps[k]], timeout=600)
         return k, rc, out, err, out_v
 
     res = {}
-    with ThreadPoolExecutor(max_workers=len(keys)) as ex:
+    with ThreadPoolExecutor(max_workers=min(4, len(keys))) as ex:
         for k, rc, out, err, out_v in ex.map(one, keys):
             if rc != 0:
                 c.report("trace:" + k, "tracer of program %s failed (generated class no longer instantiates / runs with Sym): %s" % (
@@ -200,9 +216,63 @@ def coq_parallel(c, common, parallel, last, timeout=900):
     return c.coq(last, timeout=timeout)
 
 
+def coq_phases(c, common, pre_jobs, phase1, phase2, timeout=900, workers=4):
+    """common: files compiled in order; pre_jobs: file lists compiled concurrently (generated modules, definitions); phase1: (group, file)
+    proof files checked concurrently (`workers` at a time); phase2: (groups, files) chains compiled concurrently afterwards (glue lemmas and the
+    Properties files, whose Print Assumptions is slow).  A chain one of whose groups failed in phase 1 is skipped and the theorems of its
+    Properties files count as undischarged obligations.  Returns None when everything compiled, else a CoqResult with the failures."""
+    import time
+    from concurrent.futures import ThreadPoolExecutor
+    r0 = c.coq(common, timeout=timeout)
+    if not r0.ok:
+        return r0
+    with ThreadPoolExecutor(max_workers=workers) as ex:
+        bad = [r for r in ex.map(lambda fs: c.coq(fs, timeout=timeout), pre_jobs) if not r.ok]
+    if bad:
+        for b in bad[1:]:
+            bad[0].failed += b.failed
+        return bad[0]
+    c.log("coq: common and generated modules done")
+
+    def one(job):
+        t0 = time.time()
+        r = c.coq([job[1]], timeout=timeout)
+        c.log("coq %s %s %.0fs" % (os.path.basename(job[1]), "ok" if r.ok else "FAILED", time.time() - t0))
+        return job, r
+
+    with ThreadPoolExecutor(max_workers=workers) as ex:
+        rs = list(ex.map(one, phase1))
+    failed = [r for (job, r) in rs if not r.ok]
+    badgroups = {job[0] for (job, r) in rs if not r.ok}
+    todo = []
+    for groups, files in phase2:
+        if badgroups & set(groups):
+            for f in files:
+                if os.path.basename(f).startswith("Properties"):
+                    txt = open(f if os.path.isabs(f) else os.path.join(c.dir, "coq", f)).read()
+                    c.coverage["obligations"] += len(re.findall(r"^\s*(?:Theorem|Lemma|Corollary|Example)\s+", txt, flags=re.M))
+            continue
+        todo.append(files)
+
+    def post(files):
+        t0 = time.time()
+        r = c.coq(files, timeout=timeout)
+        c.log("coq %s %s %.0fs" % (os.path.basename(files[-1]), "ok" if r.ok else "FAILED", time.time() - t0))
+        return r
+
+    with ThreadPoolExecutor(max_workers=workers) as ex:
+        failed += [r for r in ex.map(post, todo) if not r.ok]
+    if not failed:
+        return None
+    for b in failed[1:]:
+        failed[0].failed += b.failed
+    failed[0].ok = False
+    return failed[0]
+
+
 def stiffness(young, nu, S):
     la, mu = lame(young, nu)
     return [[(la if (i < 3 and j < 3) else 0.0) + (2 * mu if i == j else 0.0) for j in range(S)] for i in range(S)]
 
 
-HYP_SIZE = {"h3d": 6, "hpe": 4, "hax": 4, "hag": 3}
+HYP_SIZE = {"h3d": 6, "hpe": 4, "hax": 4, "hag": 3, "hgp": 4}
